@@ -728,7 +728,7 @@ def replay(cex):
     ex = cm.nd_mods()['ex']
     if kind == 'eps_threshold':
         thr = cex.get('threshold', 1.0)
-        for scale in (thr * 1e-3, thr * 1e-6, 1e-20):
+        for scale in ([thr * 1e-3, thr * 1e-6] if np.isfinite(thr) else []) + [1e-20]:
             seq = [scale * (1 + 0.5 ** i) for i in range(5)]
             e = ex.EpsAlg()
             for v in seq:
@@ -744,6 +744,19 @@ def replay(cex):
                 r = e(v)
             want = float((F[0] * F[2] - F[1] * F[1]) / (F[2] - 2 * F[1] + F[0]))
             if abs(r - want) > 1e-6 * abs(want):
+                return True, 'EpsAlg on %r returns %r after 3 terms; the Shanks entry is %r (no difference vanishes)' % (seq[:3], r, want)
+        # entries that agree to one unit in the last place but are not equal: no table difference vanishes
+        eps = 2.0 ** -52
+        for seq in ([-1.0, 0.0, 1.0 + eps], [1 + 4 * eps, 1 + 2 * eps, 1 + eps], [3.0, 3.0 * (1 + eps), 5.0], [2.0, 1.0, 1.0 - eps / 2, 0.25]):
+            F = [Fraction(v) for v in seq[:3]]
+            den = F[2] - 2 * F[1] + F[0]
+            if den == 0 or F[1] == F[0] or F[2] == F[1]:
+                continue
+            e = ex.EpsAlg()
+            for v in seq[:3]:
+                r = e(v)
+            want = float((F[0] * F[2] - F[1] * F[1]) / den)
+            if not abs(r - want) <= 1e-6 * max(abs(want), 1e-300):
                 return True, 'EpsAlg on %r returns %r after 3 terms; the Shanks entry is %r (no difference vanishes)' % (seq[:3], r, want)
         return False, 'EpsAlg equals the Shanks entry on small-scale sequences'
     if kind in ('eps', 'eps_table'):
